@@ -29,14 +29,14 @@ RULE = ("case = (documented name, spelling in {as documented, all '_', all '-', 
         "with all remote names; plus 200 undocumented names (typos of real ones); plus a default-home run. "
         "non-trivial: every load of a documented name; distinct by (name, spelling, unpack).")
 REQUIRED_MONITORS = ["c18:bundled", "c18:remote", "c18:pinned_checksum_enforced", "c18:all_in_one_home",
-                     "c18:undocumented", "c18:default_home", "c18:substitution_wrapper"]
+                     "c18:undocumented", "c18:default_home", "c18:substitution_wrapper", "c18:switch_home"]
 ASSUMPTIONS = ["the served payloads are synthetic; what is observed is the loader's behaviour per name, not the remote files"]
 NPARTS = 12
 
 
 def plan(tier, seed):
     specs = [{"kind": "names", "part": p, "parts": NPARTS} for p in range(NPARTS)]
-    specs += [{"kind": "one_home"}, {"kind": "undocumented"}, {"kind": "default_home"}]
+    specs += [{"kind": "one_home"}, {"kind": "undocumented"}, {"kind": "default_home"}, {"kind": "switch_home"}]
     return specs
 
 
@@ -306,8 +306,53 @@ def run_default_home(ctx):
         shutil.rmtree(scratch, ignore_errors=True)
 
 
+def run_switch_home(ctx):
+    """TRAFFIC_WEAVER_DATA changed between loads of one process: every load must use the directory named at that time"""
+    names = [n for _t, n in _ds.documented_names() if not _ds.is_bundled(n)]
+    rng = ctx.rng("sw", 0)
+    scratch = _ds.scratch_root()
+    try:
+        homes = [os.path.join(scratch, "home%d" % i) for i in range(4)]
+        for h in homes:
+            os.mkdir(h)
+        steps = [{"op": "net", "default": "good"}]
+        plan_ = []
+        for k in range(12):
+            h = homes[int(rng.integers(0, 4))] if k else homes[0]
+            n = names[int(rng.integers(0, len(names)))]
+            if k:
+                steps.append({"op": "set_home", "home": h})
+            steps.append({"op": "by_name", "name": n, "substitute": True})
+            plan_.append((len(steps) - 1, h, n))
+        rc, out, err = _ds.run_child({"home": homes[0], "steps": steps}, scratch)
+        if out is None:
+            raise RuntimeError("dataset child failed rc=%s: %s" % (rc, err))
+        for si, h, n in plan_:
+            r = out["results"][si]
+            cid = {"kind": "switch_home", "name": n, "step": si, "seed": ctx.seed}
+            ctx.judged()
+            ctx.monitor("c18:switch_home")
+            if r.get("outcome") != "ok":
+                ctx.violation("documented_name_not_loadable", cid, {"exception": r.get("exc_type"), "message": r.get("exc_msg")})
+                continue
+            bad = _ds.outside_writes(r["audit"], h)
+            cap = (r.get("captured") or [{}])[0]
+            slot = os.path.join(h, cap.get("dataset_folder", "?"), cap.get("dataset_filename", "?"))
+            if bad or not os.path.exists(slot):
+                ctx.violation("cache_not_under_the_directory_named_by_TRAFFIC_WEAVER_DATA", cid,
+                              {"expected_home": os.path.basename(h), "outside_events": bad[:4],
+                               "slot_exists": os.path.exists(slot)})
+                continue
+            ctx.nontriv("switch_home", si, n)
+        ctx.sample({"switch_home": [[os.path.basename(h), n] for _si, h, n in plan_[:5]]})
+    finally:
+        shutil.rmtree(scratch, ignore_errors=True)
+
+
 def run(ctx, spec):
     k = spec["kind"]
+    if k == "switch_home":
+        return run_switch_home(ctx)
     if k == "names":
         run_names(ctx, spec)
     elif k == "one_home":
@@ -320,6 +365,8 @@ def run(ctx, spec):
 
 def replay(ctx, case):
     k = case["kind"]
+    if k == "switch_home":
+        return run_switch_home(ctx)
     if k == "names":
         names = _ds.documented_names()
         i = [n for _t, n in names].index(case["name"])
